@@ -66,6 +66,7 @@ def run(ctx):
                 break                          # one replay file per key is enough
     if unrepro:
         cov["unreproduced"] = unrepro
+    cov["concurrent_stage"] = wc.conc_stage(ctx, binary)
     # drift: predictions of the mechanism model that the code did not follow
     pred_bad = {p: n for p, n in summ["pred"].items() if p.split("/")[2] != p.split("/")[3]}
     cov["drift"] = {"prediction_mismatches": pred_bad, "stale_predictions": dict(stale)}
@@ -88,6 +89,8 @@ def run(ctx):
         "payload-level inputs are byte strings without spare capacity; frames are delivered in a buffer of the packet loop's size (1514) whose tail is zeroed",
         "a panic inside Session.Parse is property C01's, not C08's (counted in driver.parse_panics)",
         "hang = no return within the per-call deadline (300 ms, confirmed with 2 s on a second execution)",
+        "rate limiters of the library are re-armed before every case where a hook exists (STP log line, DISCOVER storm); large STP frames additionally run as the first STP frame of a worker process of their own",
+        "concurrent stage: one packet loop goroutine and three readers of the documented goroutine-safe DNS table API, a few seconds per run (schedules are sampled, not enumerated; spec/WalkConc.tla checks the lock protocol)",
         "inputs of a class on which the code is predicted to spin are exercised a bounded number of times per run (coverage.skipped)",
     ]
     if not summ["dns_hook"]:
@@ -98,6 +101,17 @@ def replay(ctx, path):
     obj = json.load(open(path))
     rp = obj["replay"]
     binary = wc.build(ctx)
+    if "conc" in rp:
+        import subprocess
+        b = wc.build(ctx, race=True) if rp["conc"].get("race") else binary
+        for _ in range(3):
+            p = subprocess.run([b, "-mode", "conc", "-dur", rp["conc"]["dur"], "-readers", str(rp["conc"]["readers"])],
+                               stdout=subprocess.PIPE, stderr=subprocess.PIPE, text=True, errors="replace", timeout=120)
+            if "fatal error:" in p.stderr or "WARNING: DATA RACE" in p.stderr:
+                print("VIOLATION property=%s replay=%s" % (ctx.pid, path))
+                return 1
+        print("not reproduced")
+        return 0
     again = wc.run_one(ctx, binary, rp["vector"], rp["c"], rp["k"], rp["mut"])
     if again.get("outcome") in ("panic", "hang", "killed"):
         print("VIOLATION property=%s replay=%s" % (ctx.pid, path))
